@@ -53,6 +53,7 @@ type c18Op struct {
 
 type c18Spec struct {
 	TTLms    int       `json:"ttl_ms"`
+	PageSize int       `json:"page_size,omitempty"` // > 0: the server pages its lists; every list is a full traversal by cursor
 	CapOff   string    `json:"cap_off,omitempty"`
 	Sessions []c18Sess `json:"sessions"`
 	Ops      []c18Op   `json:"ops"`
@@ -78,6 +79,9 @@ func genC18(r *vh.Rand, idx int) c18Spec {
 	s := c18Spec{TTLms: []int{0, 60000, 60000, 60000, 30}[r.Intn(5)]}
 	if r.Chance(1, 7) {
 		s.CapOff = r.Choose("tools", "prompts", "resources")
+	}
+	if r.Chance(1, 5) {
+		s.PageSize = r.Range(1, 3)
 	}
 	n := r.Range(1, 4)
 	for i := 0; i < n; i++ {
@@ -193,6 +197,7 @@ type c18ListObs struct {
 	err       string
 	final     bool
 	inHandler bool
+	pages     int
 }
 
 type c18ReadObs struct {
@@ -303,6 +308,7 @@ func runC18(c *vh.Case, spec c18Spec) *c18World {
 	case "resources":
 		so.Capabilities = &mcp.ServerCapabilities{Resources: &mcp.ResourceCapabilities{ListChanged: false, Subscribe: true}}
 	}
+	so.PageSize = spec.PageSize
 	server := mcp.NewServer(&mcp.Implementation{Name: "s", Version: "1"}, so)
 	readHandler := func(ctx context.Context, req *mcp.ReadResourceRequest) (*mcp.ReadResourceResult, error) {
 		w.mu.Lock()
@@ -536,35 +542,48 @@ func runC18(c *vh.Case, spec c18Spec) *c18World {
 		defer cancel()
 		names := map[string]bool{}
 		var err error
-		switch lk {
-		case "tools":
-			var res *mcp.ListToolsResult
-			if res, err = cs.ListTools(lctx, nil); err == nil {
-				for _, t := range res.Tools {
-					names[t.Name] = true
+		cursor := ""
+		for obs.pages = 0; obs.pages < 64; {
+			next := ""
+			switch lk {
+			case "tools":
+				var res *mcp.ListToolsResult
+				if res, err = cs.ListTools(lctx, &mcp.ListToolsParams{Cursor: cursor}); err == nil {
+					for _, t := range res.Tools {
+						names[t.Name] = true
+					}
+					next = res.NextCursor
+				}
+			case "prompts":
+				var res *mcp.ListPromptsResult
+				if res, err = cs.ListPrompts(lctx, &mcp.ListPromptsParams{Cursor: cursor}); err == nil {
+					for _, t := range res.Prompts {
+						names[t.Name] = true
+					}
+					next = res.NextCursor
+				}
+			case "resources":
+				var res *mcp.ListResourcesResult
+				if res, err = cs.ListResources(lctx, &mcp.ListResourcesParams{Cursor: cursor}); err == nil {
+					for _, t := range res.Resources {
+						names[t.Name] = true
+					}
+					next = res.NextCursor
+				}
+			case "templates":
+				var res *mcp.ListResourceTemplatesResult
+				if res, err = cs.ListResourceTemplates(lctx, &mcp.ListResourceTemplatesParams{Cursor: cursor}); err == nil {
+					for _, t := range res.ResourceTemplates {
+						names[t.Name] = true
+					}
+					next = res.NextCursor
 				}
 			}
-		case "prompts":
-			var res *mcp.ListPromptsResult
-			if res, err = cs.ListPrompts(lctx, nil); err == nil {
-				for _, t := range res.Prompts {
-					names[t.Name] = true
-				}
+			obs.pages++
+			if err != nil || next == "" {
+				break
 			}
-		case "resources":
-			var res *mcp.ListResourcesResult
-			if res, err = cs.ListResources(lctx, nil); err == nil {
-				for _, t := range res.Resources {
-					names[t.Name] = true
-				}
-			}
-		case "templates":
-			var res *mcp.ListResourceTemplatesResult
-			if res, err = cs.ListResourceTemplates(lctx, nil); err == nil {
-				for _, t := range res.ResourceTemplates {
-					names[t.Name] = true
-				}
-			}
+			cursor = next
 		}
 		if err != nil {
 			obs.err = err.Error()
@@ -1064,6 +1083,28 @@ func decideC18(c *vh.Case, spec c18Spec, w *c18World) {
 			if s == l.names {
 				idx = i
 			}
+		}
+		if idx < 0 && l.pages > 1 {
+			// A traversal of several pages may legitimately mix states (changes between pages, pages cached
+			// at different times). Only when nothing can be stale is a mixture wrong: a final traversal
+			// (no change in progress) by a session that had handled the notification covering the last state.
+			rt := w.sess[l.sess]
+			m := c18Method(c18NotifKind(l.listKind))
+			need := 0
+			for pos, a := range rt.recvs[m] {
+				if a.handledSeq == 0 || a.handledSeq > l.seqIssue {
+					continue
+				}
+				if ci := coverIdx(rt, spec.Sessions[l.sess].Kind == "mem", m, l.listKind, pos, a); ci > need {
+					need = ci
+				}
+			}
+			if l.final && need == len(w.sets[l.listKind])-1 {
+				c.Violate("stale-page-after-notification/"+l.listKind, "session %d (%s, ttl %d ms, page size %d): the final %s traversal (%d pages) returned {%s} although the client had handled the notification sent after the last state {%s} was in place: some page is stale", l.sess, spec.Sessions[l.sess].Version, spec.TTLms, spec.PageSize, l.listKind, l.pages, l.names, w.sets[l.listKind][need])
+				return
+			}
+			c.Count("paged_mixtures_undecided", 1)
+			continue
 		}
 		if idx < 0 {
 			c.Violate("list-matches-no-state", "session %d: %s list returned {%s}, which was never the server's state (history %v)", l.sess, l.listKind, l.names, w.sets[l.listKind])
